@@ -1,3 +1,4 @@
+import DigModel.Proofs.TagGrammar
 import DigModel.Proofs.Parse
 import DigModel.Proofs.RegOKApi
 /-
@@ -130,6 +131,21 @@ theorem C09_own_keys_distinct (p : Program) (n : Nat) (hn : n < (runProgram p).1
     (ctorKeys (runProgram p).1 n).Nodup :=
   (regInv_program p).nodup n hn
 
+
+/-- **the grammar of a group tag / `dig.Group` value** (what makes two group strings name the same group): accepted exactly
+    when the first comma-separated component — the group's name, verbatim, blanks included — is not empty and every
+    further component is `flatten` or `soft` -/
+theorem C09_group_tag_grammar (s : String) (g : GroupSpec) :
+    parseGroupString s = .ok g ↔
+      ∃ name opts, s.splitOn "," = name :: opts ∧ name ≠ "" ∧ (∀ o ∈ opts, o = "flatten" ∨ o = "soft") ∧
+        g = { name := name, flatten := opts.contains "flatten", soft := opts.contains "soft" } :=
+  parseGroupString_ok_iff s g
+
+theorem C09_group_tag_rejections (s : String) (e : DErr) (h : parseGroupString s = .error e) : e = .invalid0 ∨ e = .groupOpt :=
+  parseGroupString_error s e h
+
+#print axioms C09_group_tag_grammar
+#print axioms C09_group_tag_rejections
 #print axioms C09_keys_distinct
 #print axioms C09_one_provider_per_key
 #print axioms C09_registered_under_declared_keys
